@@ -939,14 +939,25 @@ class _ExecutorManagerThread(threading.Thread):
         with self.processes_management_lock:
             mp.util.debug(f"joining {len(self.processes)} processes")
             n_joined_processes = 0
+            all_processes = list(self.processes.values())
             while True:
                 try:
                     pid, p = self.processes.popitem()
                     mp.util.debug(f"joining process {p.name} with pid {pid}")
-                    p.join()
+                    # A worker that died abruptly during the shutdown can
+                    # hold a lock of the call queue for ever: the others then
+                    # never receive their sentinel. Do not wait for those.
+                    p.join(timeout=0.1)
+                    while p.is_alive():
+                        if any(
+                            q.exitcode not in (None, 0) for q in all_processes
+                        ):
+                            kill_process_tree(p)
+                        p.join(timeout=0.1)
                     n_joined_processes += 1
                 except KeyError:
                     break
+            del all_processes
 
             mp.util.debug(
                 "executor management thread clean shutdown of "
